@@ -182,7 +182,8 @@ def export_set(chk: Check, rng: common.Rng, thorough: bool):
     for key in CORPUS:
         if key in by_key:
             plan.append((progs.plugin_desc(by_key[key]), progs.plugin_cfg(by_key[key])))
-    core = progs.core_programs(rng, n_random=12 if not thorough else 120, max_depth=3 if not thorough else 5)
+    core = progs.core_programs(rng, n_random=12 if not thorough else 120, max_depth=3 if not thorough else 5,
+                               n_dimuse=6 if not thorough else 90)
     for d in core:
         plan.append((d, progs.default_cfg()))
         for _ in range(1 if not thorough else 4):
